@@ -54,6 +54,9 @@ func runC11(c C11Case) ev.Outcome {
 	if c.Kind == "listener" {
 		run = runC11Listener
 	}
+	if c.Kind == "storm" {
+		run = runC11Storm
+	}
 	// a failed time clause is confirmed by re-executing the same case before it is reported
 	return withHangConfirmation("C11", c, func() (ev.Outcome, bool) { return run(c) })
 }
